@@ -90,3 +90,53 @@ Fixpoint a_on_para (n : nat) (g : list item -> list item) (d : ldocl) : ldocl :=
 (* the domain of C04: valid name, canonical value with a non-empty first line *)
 Definition canon_kv (k v : str) : bool :=
   valid_name k && canon_value v && match v with [] => false | c :: _ => negb (c =? 10)%N end.
+
+(* ---- the abstract effect of the paragraph operations (C05) ---- *)
+Fixpoint terminate_doc (d : ldocl) : ldocl :=
+  match d with
+  | [] => []
+  | [LBlank] => [LBlank]
+  | [LComment c _] => [LComment c true]
+  | [LPara its] => [LPara (terminate_last its)]
+  | b :: r => b :: terminate_doc r
+  end.
+
+Definition a_add (d : ldocl) : ldocl :=
+  match d with
+  | [] => [LPara []]
+  | _ => terminate_doc d ++ [LBlank; LPara []]
+  end.
+
+(* insert [new] in front of the n-th paragraph block; None if there is none *)
+Fixpoint insert_before_para (n : nat) (new : ldocl) (d : ldocl) : option ldocl :=
+  match d with
+  | [] => None
+  | LPara its :: r =>
+      match n with
+      | O => Some (new ++ LPara its :: r)
+      | S n' => match insert_before_para n' new r with Some r' => Some (LPara its :: r') | None => None end
+      end
+  | b :: r => match insert_before_para n new r with Some r' => Some (b :: r') | None => None end
+  end.
+
+Definition a_insert_para (d : ldocl) (i : nat) : ldocl :=
+  match d with
+  | [] => [LPara []]
+  | _ =>
+    match i with
+    | O => LPara [] :: LBlank :: d
+    | _ => match insert_before_para i [LPara []; LBlank] d with Some d' => d' | None => a_add d end
+    end
+  end.
+
+Definition is_empty_line_block (b : lblock) : bool := match b with LPara _ => false | _ => true end.
+Fixpoint a_remove_para (d : ldocl) (i : nat) : ldocl :=
+  match d with
+  | [] => []
+  | LPara its :: r =>
+      match i with
+      | O => match r with b :: r' => if is_empty_line_block b then r' else r | [] => [] end
+      | S i' => LPara its :: a_remove_para r i'
+      end
+  | b :: r => b :: a_remove_para r i
+  end.
